@@ -37,6 +37,8 @@ pub struct LFile {
     pub name: &'static str,
     pub lines: Vec<LLine>,
     pub trailing_newline: bool,
+    /// Lines end with CR LF.
+    pub crlf: bool,
     /// Markdown block structure: insertions only after a non-blank text line.
     pub markdown: bool,
     /// `{}` is replaced by a counter to make a fresh, valid line of the language.
@@ -60,9 +62,10 @@ impl LFile {
         }
     }
     pub fn text(&self) -> String {
-        let mut s = self.lines.iter().map(|l| l.text.as_str()).collect::<Vec<_>>().join("\n");
+        let eol = if self.crlf { "\r\n" } else { "\n" };
+        let mut s = self.lines.iter().map(|l| l.text.as_str()).collect::<Vec<_>>().join(eol);
         if self.trailing_newline && !self.lines.is_empty() {
-            s.push('\n');
+            s.push_str(eol);
         }
         s
     }
@@ -112,7 +115,7 @@ pub fn lfile(name: &'static str, fresh: &'static str, spec: &str) -> LFile {
         };
         lines.push(LLine { text: text.to_string(), label, marks: 0 });
     }
-    LFile { name, lines, trailing_newline: true, markdown: name.ends_with(".md"), fresh }
+    LFile { name, lines, trailing_newline: true, crlf: false, markdown: name.ends_with(".md"), fresh }
 }
 
 #[derive(Clone, Debug, Hash, PartialEq, Eq)]
